@@ -38,7 +38,7 @@ def check(ctx):
         vs = gen.VARS[:nv]
         ni = rng.randint(0, nv)
         ins, outs = vs[:ni], vs[ni:]
-        mode = rng.choice(["bounded", "bounded", "open", "infeasible"])
+        mode = rng.choice(["bounded", "bounded", "open", "infeasible", "infeasible_constant_rows"])
         p = gen.rand_point(rng, vs)
         a = [gen.rand_term(rng, ins, "dyadic", point=p) for _ in range(rng.randint(0, 2))] if ins else []
         g = []
@@ -51,6 +51,16 @@ def check(ctx):
             for v in used:
                 g += pc.two_sided(rng, {v: F(1)}, p, 6)
         g += [gen.rand_term(rng, used, "dyadic", point=p) for _ in range(rng.randint(1, 3))]
+        if mode == "infeasible_constant_rows":
+            # unsatisfiable only through a variable-free false row, standing next to a variable-free TRUE one and ordinary constraints
+            for v in used:
+                g += pc.two_sided(rng, {v: F(1)}, p, 6)
+            extra = [({}, F(rng.choice([-1, -3]))), ({}, F(rng.choice([0, 2])))]
+            if rng.random() < 0.5 and a:
+                a = a + extra[:1]
+                g = g + extra[1:]
+            else:
+                g = g + extra
         if mode == "infeasible":
             t = rng.choice(g)
             g.append(({x: -c for x, c in t[0].items()}, -t[1] - F(rng.randint(1, 6), 2)))
